@@ -1,5 +1,5 @@
 """C02 — all three neighbour searches return exactly the k nearest other samples.
-Model: lean/TapkeeVerif/Model/{Knn,VpTree}.lean; theorems: Props/C02.lean; driver: lean/Driver/C02.lean;
+Model: lean/TapkeeVerif/Model/{Knn,VpTree,CoverTree,CoverBuild}.lean; theorems: Props/C02.lean; driver: lean/Driver/C02.lean;
 harness: harness/c02_knn.cpp (+ knn_common.hpp): tapkee_internal::find_neighbors(method, begin, end, cb, k, false)
 for Brute / VpTree / CoverTree under ASan+UBSan, with the vantage-point stream replayed through
 CUSTOM_UNIFORM_RANDOM_FUNCTION."""
@@ -27,6 +27,8 @@ REQUIRED_THEOREMS = [
     "TapkeeVerif.Knn.CoverQuery.cover_tree_end_to_end",
     "TapkeeVerif.Knn.CoverQuery.cover_top_uncovered_drops",
     "TapkeeVerif.Knn.CoverQuery.batchCreate_fuel_suffices",
+    "TapkeeVerif.Knn.CoverQuery.batchCreate_fuel_mono",
+    "TapkeeVerif.Knn.CoverQuery.batchCreate_total_wf",
 ]
 METHODS = ["brute", "vptree", "covertree"]
 
@@ -484,9 +486,16 @@ def correspond(ctx):
         "std::nth_element, std::partial_sort and std::priority_queue are modelled by their postconditions (theorems hold for "
         "any admissible outcome); the executable model instance uses a stable sort / first-maximum pop and is compared at the "
         "level of sorted distance lists (brute, VP-tree) resp. entry by entry (cover wrapper: std::pair's operator< is total)",
-        "cover tree: batch_create is not modelled — the tree it builds is dumped and certificate-checked on every run "
-        "(wfTree, the hypothesis of cover_query_exact) and the Lean model of the batch query is run on it (candidate "
-        "sets must equal the real query's; halfsort = identity in the model); additionally CandsOk and equality with "
-        "{j | d(i,j) <= (k+1)-th distance} are evaluated on the real candidate sets; the model of the wrapper runs "
-        "on the real candidate sets",
+        "cover tree construction: get_scale = ceil(log d / log 1.3) and dist_of_scale = pow(1.3, s) are parameters of the "
+        "Lean model of batch_create (theorems hold for every get_scale and every non-negative dist_of_scale; termination "
+        "needs them to bracket the positive distances: ScalesOk); the harness prints the values the real member functions "
+        "return for every positive distance between two samples and every scale in [min-3, max+1], the driver evaluates the "
+        "hypotheses on them, runs the model with them and with exactly the fuel of batchCreate_fuel_suffices, and the "
+        "resulting tree must equal the dumped real tree record by record (point, scale, number of children, max_dist, "
+        "parent_dist, children order); int / short / unsigned short fields are unbounded integers in the model "
+        "(|scale| < 5600 for doubles, fewer than 65536 children per node)",
+        "cover tree query: the real tree is additionally certificate-checked on every run (wfTree, now also a theorem about "
+        "the construction) and the Lean model of the batch query is run on it (candidate sets must equal the real query's; "
+        "halfsort = identity in the model); CandsOk and equality with {j | d(i,j) <= (k+1)-th distance} are evaluated on "
+        "the real candidate sets; the model of the wrapper runs on the real candidate sets",
     ]
